@@ -178,4 +178,22 @@ def cases(seed, count):
         c.widths, c.nmax, c.lens, c.ascii_only = (1, 2, 3, 4), 1, None, False
         out.append(c)
         k += 1
+    # Annex B ClassAtom - ClassAtom with a class escape on one side: the three atoms are consumed as a unit
+    # (union of both atoms and '-'); what follows starts afresh.  Denotations written out by hand.
+    digits, word = [(0x30, 0x39)], [(0x30, 0x39), (0x41, 0x5A), (0x5F, 0x5F), (0x61, 0x7A)]
+    space = [(9, 13), (0x20, 0x20), (0xA0, 0xA0), (0x1680, 0x1680), (0x2000, 0x200A), (0x2028, 0x2029), (0x202F, 0x202F),
+             (0x205F, 0x205F), (0x3000, 0x3000), (0xFEFF, 0xFEFF)]
+    annexb = [
+        ("[\\d-a-z]", digits + [(0x2D, 0x2D), (0x61, 0x61), (0x7A, 0x7A)], False),
+        ("[\\w-!-/]", word + [(0x2D, 0x2D), (0x21, 0x21), (0x2F, 0x2F)], False),
+        ("[^\\s-A-Z]", space + [(0x2D, 0x2D), (0x41, 0x41), (0x5A, 0x5A)], True),
+        ("[a-\\d-z]", digits + [(0x61, 0x61), (0x2D, 0x2D), (0x7A, 0x7A)], False),
+        ("[+--\\d]", [(0x2B, 0x2D)] + digits, False),
+    ]
+    for text, ivs, neg in annexb:
+        den = invert(norm(ivs)) if neg else norm(ivs)
+        c = Case(Seq([Start(), RawCls(text, den), End()]), "", "cls_l_%d" % k)
+        c.widths, c.nmax, c.lens, c.ascii_only = (1, 2, 3), 1, None, False
+        out.append(c)
+        k += 1
     return out
